@@ -192,7 +192,28 @@ def q_cfg(o, op):
     return canon(getattr(o, op)())
 
 
-def query(t, o, op):
+NAME_REVEALING = {"to_dict", "to_text", "get_generating_symbols", "get_nullable_symbols", "get_reachable_symbols",
+                  "llone_first", "cnf_tree", "str", "get_tree_str", "get_generating_non_terminals",
+                  "get_reachable_non_terminals"}
+
+
+def summarize(v):
+    """Name-insensitive summary of an answer (used for objects whose state/variable names are generated)."""
+    if isinstance(v, list):
+        return ["#", len(v), sorted(json.dumps(summarize(x)) for x in v if isinstance(x, list))]
+    if isinstance(v, str):
+        return ["#str", v.count("\n")]
+    return v
+
+
+def query(t, o, op, derived=False):
+    v = query_raw(t, o, op)
+    if derived and op in NAME_REVEALING:
+        return summarize(canon(v))
+    return v
+
+
+def query_raw(t, o, op):
     if t in ("enfa", "dfa"):
         return q_fa(o, op)
     if t == "regex":
@@ -262,6 +283,9 @@ def mutate(t, o, mu, n):
     raise KeyError(t)
 
 
+MUTABLE = {"enfa", "dfa", "pda", "fst"}
+
+
 # ------------------------------------------------------------------ the replay
 class Heap:
     def __init__(self, roots):
@@ -319,11 +343,14 @@ def run_history(roots, hist, result_types):
     evs = [{"k": "init", "snaps": h.snaps(), "roots": [list(r) for r in roots]}]
     for step in hist:
         k, o, op = step["k"], step["o"], step["op"]
-        ev = {"k": k, "o": o, "op": op}
+        ev = {"k": k, "o": o, "op": op, "kop": op}
         t = h.typ[o]
         if k == "query":
-            ans, exc = _guarded(lambda: query(t, h.obj[o], op))
-            fresh, fexc = _guarded(lambda: query(t, h.rebuild(o), op))
+            derived = h.recipe[o][0] != "root"
+            if derived and op in NAME_REVEALING:
+                ev["kop"] = op + "#summary"
+            ans, exc = _guarded(lambda: query(t, h.obj[o], op, derived))
+            fresh, fexc = _guarded(lambda: query(t, h.rebuild(o), op, derived))
         elif k == "query2":
             b = step["o2"]
             ev["o2"] = b
@@ -338,19 +365,36 @@ def run_history(roots, hist, result_types):
             ev["d"] = d
             res, exc = _guarded(lambda: conv1(t, h.obj[o], op))
             rt = result_types[d]
-            if exc is None:
+            if exc is not None:
+                _, fexc = _guarded(lambda: conv1(t, h.rebuild(o), op))
+                ans = fresh = None
+            elif rt in MUTABLE and any(res is x for x in h.obj.values()):
+                ev["alias"] = [j for j, x in h.obj.items() if res is x]
+                ev["snaps"] = h.snaps()
+                evs.append(ev)
+                break
+            elif exc is None:
                 h.obj[d], h.typ[d], h.muts[d] = res, rt, []
                 h.recipe[d] = ("conv1", op, o, len(h.muts[o]))
                 ans, exc = _guarded(lambda: fingerprint(rt, res))
                 fresh, fexc = _guarded(lambda: fingerprint(rt, conv1(t, h.rebuild(o), op)))
-            else:
-                ans = fresh = fexc = None
         elif k == "conv2":
             b, d = step["o2"], step["d"]
             ev["o2"], ev["d"] = b, d
             res, exc = _guarded(lambda: conv2(t, h.obj[o], op, h.obj[b]))
             rt = result_types[d]
-            if exc is None:
+            if exc is not None:
+                def fr0():
+                    memo = {}
+                    return conv2(t, h.rebuild(o, None, memo), op, h.rebuild(b, None, memo))
+                _, fexc = _guarded(fr0)
+                ans = fresh = None
+            elif rt in MUTABLE and any(res is x for x in h.obj.values()):
+                ev["alias"] = [j for j, x in h.obj.items() if res is x]
+                ev["snaps"] = h.snaps()
+                evs.append(ev)
+                break
+            elif exc is None:
                 h.obj[d], h.typ[d], h.muts[d] = res, rt, []
                 h.recipe[d] = ("conv2", op, o, len(h.muts[o]), b, len(h.muts[b]))
                 ans, exc = _guarded(lambda: fingerprint(rt, res))
@@ -359,14 +403,18 @@ def run_history(roots, hist, result_types):
                     memo = {}
                     return fingerprint(rt, conv2(t, h.rebuild(o, None, memo), op, h.rebuild(b, None, memo)))
                 fresh, fexc = _guarded(fr2)
-            else:
-                ans = fresh = fexc = None
         else:  # mutate
             n = len(h.muts[o])
             ev["desc"] = mutate(t, h.obj[o], op, n)
             h.muts[o].append((op, n))
             ans = fresh = exc = fexc = None
         if k != "mutate":
+            if "Timeout" in (exc, fexc):
+                # a call too slow for the watchdog decides nothing about history effects; the history ends here
+                ev["inconclusive"] = "timeout"
+                ev["snaps"] = h.snaps()
+                evs.append(ev)
+                break
             if exc is not None and fexc is not None and exc == fexc:
                 # the call fails the same way on fresh objects: not a history effect (owned by another property)
                 ev["bothexc"] = exc
